@@ -174,7 +174,7 @@ func (o *OrderedCollectionPage) Count() uint {
 // Append adds an element to an OrderedCollectionPage
 func (o *OrderedCollectionPage) Append(it ...Item) error {
 	for _, ob := range it {
-		if o.OrderedItems.Contains(ob) {
+		if IsNil(ob) || o.OrderedItems.Contains(ob) {
 			continue
 		}
 		o.OrderedItems = append(o.OrderedItems, ob)
